@@ -1,5 +1,5 @@
 import NfcVerif.Lemmas.TlvSync
-import NfcVerif.Lemmas.TlvRetry
+import NfcVerif.Lemmas.HistC02
 /-!
 # C02 - an interrupted NDEF write never leaves a corrupt message (Type 1 and Type 2 Tag)
 
@@ -11,7 +11,7 @@ while the first length byte is still `00` (`phase3a`).  The as-found behaviour i
 `writeCmdsAsFound` and shown to be unsafe at the end of this file.
 -/
 namespace NfcVerif.C02
-open NfcVerif NfcVerif.Tlv
+open NfcVerif NfcVerif.Tlv NfcVerif.Hist
 
 /-- what a fresh reader may see after an interrupted write: the previous message, an empty
 message, or the complete new message - in each case with the same TLV offset, skip set,
@@ -54,48 +54,152 @@ theorem t12_prefix_threshold (u : Nat) (hu : 0 < u) (m m' : Bytes) (hl : m.lengt
     ∃ j, ∀ x : Nat, (apply m ((diffUnits u m m').take k))[x]? = if x < j * u then m'[x]? else m[x]? :=
   prefix_threshold u hu m m' hl k
 
-/-! ## A lost command and a retry on the same NDEF object
+/-! ## Histories: faults of both kinds, retries through the same object (repaired memory reader)
 
-The memory reader keeps the image it wants on the tag (`_data_in_cache`) and the image it
-believes to be there (`_data_from_tag`); `synchronize()` sends the units in which they differ. -/
+`NfcVerif.Hist` (`Model/HistC01.lean`): the memory reader keeps the image it wants on the tag (`cache`,
+`_data_in_cache`), the image it believes to be there (`belief`, `_data_from_tag`) and - since the repair
+`fixes/C02/0002` - the set of units whose write command did not return (`dirty`, `_unconfirmed`); `tag` is the real
+content.  A `Fault ⟨k, late⟩` makes state-changing command `k` of an attempt fail: `late = false` - the tag does
+not execute it (this is also a power cut after `k` commands), `late = true` - the tag executes it but the reader
+gets no answer (a power cut after `k+1` commands, or a lost acknowledgement with the tag staying in the field).
+`historyR c L (freshR m) hs` runs the attempts `hs = [(message, fault?), ...]` through the object that found layout
+`L` on image `m`. -/
 
-/-- **What the cache may assume about the tag.**  `_write_to_tag` records a unit in
-`_data_from_tag` only after its command succeeded; hence when command `j` of a `synchronize()`
-is lost (the exception reaches the application) the recorded image still equals the content of
-the tag, for every unit list, cache and fault position.  (With the two statements swapped this
-is false - see the example below - and a later write computes its commands against an image the
-tag does not hold.) -/
-theorem t12_cache_coherent (u : Nat) (cache : Bytes) (is : List Nat) (j : Nat) (b : Bytes) :
-    (syncLost u cache is j (b, b)).1 = (syncLost u cache is j (b, b)).2 :=
-  syncLost_coherent u cache is j b
+/-- a freshly activated object without a fault sends exactly the commands of `setOctets` (the writer `t12_cut_safe`
+speaks about), so the history model extends that writer -/
+theorem t12_history_extends_writer (c : Cfg) (hu : 0 < c.unit) (m : Bytes) (L : Layout) (data : Bytes) :
+    (attemptR c L (freshR m) data none).cmds = (setOctets c m L data).cmds ∧
+    (attemptR c L (freshR m) data none).res = (setOctets c m L data).res := by
+  obtain ⟨h1, h2⟩ := attemptR_clean c L m data
+  obtain ⟨h3, h4⟩ := attempt_clean c hu m L data
+  exact ⟨h1.trans h3, h2.trans h4⟩
 
-/-- **Retry after a lost command.**  Command `k` of the write of `d1` is lost (`failedWrite`: tag
-content `T` = the acknowledged commands, cache `C` = the image of the interrupted phase).  The
-application then assigns `d2` (the same or another message, any length up to the capacity) on the
-SAME object: the assignment succeeds, afterwards a fresh reader sees exactly `d2`, and after every
-prefix of its commands (a second interruption) the tag is unchanged (`T`, itself old / empty by
-`t12_cut_safe`), or shows an empty message, or shows `d2` - for every well-formed image, every `k`,
-every alignment and unit. -/
-theorem t12_retry_cut_safe (c : Cfg) (m : Bytes) (L : Layout) (d1 d2 : Bytes) (k : Nat) (T C : Bytes)
-    (hread : readNdef c m = .ok (some L)) (hwf : WF c m L)
-    (hcap1 : (d1.length : Int) ≤ L.cap) (hcap2 : (d2.length : Int) ≤ L.cap)
-    (hfail : failedWrite c m L d1 k = some (T, C)) :
-    (writeCmdsFrom c T C L d2).res = .ok ()
-    ∧ readNdef c (apply T (writeCmdsFrom c T C L d2).cmds) = .ok (some { L with ndef := d2 })
-    ∧ ∀ j, apply T ((writeCmdsFrom c T C L d2).cmds.take j) = T
-        ∨ readNdef c (apply T ((writeCmdsFrom c T C L d2).cmds.take j)) = .ok (some { L with ndef := [] })
-        ∨ readNdef c (apply T ((writeCmdsFrom c T C L d2).cmds.take j)) = .ok (some { L with ndef := d2 }) := by
+/-- **What the cache may assume about the tag - after ANY history.**  Whatever attempts were made and however they
+failed (any command, executed by the tag or not), outside the units remembered as unconfirmed the picture
+`_data_from_tag` equals the tag; all images keep the size of the memory; tag and cache still hold the original bytes
+in front of the NDEF TLV's length field.  (Before the repair there was no such set and the statement was false as
+soon as one failed command had been executed - `t12_unacknowledged_mixture_asFound` below.) -/
+theorem t12_cache_coherent (c : Cfg) (m : Bytes) (L : Layout) (hread : readNdef c m = .ok (some L)) (hwf : WF c m L)
+    (hs : List (Bytes × Option Fault)) :
+    (∀ i, i ∉ (historyR c L (freshR m) hs).1.dirty →
+      sliceN (historyR c L (freshR m) hs).1.tag (i * c.unit) (i * c.unit + c.unit)
+        = sliceN (historyR c L (freshR m) hs).1.belief (i * c.unit) (i * c.unit + c.unit)) ∧
+    (historyR c L (freshR m) hs).1.tag.length = m.length ∧
+    (historyR c L (freshR m) hs).1.belief.length = m.length ∧
+    (∀ x, x < L.off + 1 → (historyR c L (freshR m) hs).1.tag[x]? = m[x]?) ∧
+    (∀ x, x < L.off + 1 → (historyR c L (freshR m) hs).1.cache[x]? = m[x]?) := by
+  have hi := historyR_inv c m L ((readNdef_some c m L).1 hread) hwf hs (freshR m) (InvR.fresh _ m _)
+  exact ⟨hi.sync, hi.len.tag, hi.len.belief, hi.tag, hi.cache⟩
+
+/-- **A `synchronize()` changes the tag by a prefix of the units in which tag and cache really differ**, in
+ascending order - after any history, for every cache content of the right size, every fault position and kind;
+resending an unconfirmed unit or a unit the reader only believes to differ does not alter the tag. -/
+theorem t12_sync_is_prefix (c : Cfg) (m : Bytes) (L : Layout) (hread : readNdef c m = .ok (some L)) (hwf : WF c m L)
+    (hs : List (Bytes × Option Fault)) (C : Bytes) (hC : C.length = m.length) (f : Option Fault) :
+    ∃ k, (syncR c.unit { (historyR c L (freshR m) hs).1 with cache := C } f).st.tag
+      = apply (historyR c L (freshR m) hs).1.tag ((diffUnits c.unit (historyR c L (freshR m) hs).1.tag C).take k) := by
+  have hi := historyR_inv c m L ((readNdef_some c m L).1 hread) hwf hs (freshR m) (InvR.fresh _ m _)
+  exact syncR_prefix c.unit hwf.2.1 _ f m.length ⟨hi.len.tag, hi.len.belief, hC⟩ hi.sync
+
+/-- **Retry after any history, with any further fault.**  After ANY history `hs` (any number of attempts, any
+messages, each completed or aborted at any command by a fault of either kind) the application assigns `d2` (any
+length up to the capacity) through the SAME object and this attempt is again disturbed at any command in either way
+(`f`), or not at all.  Then the tag holds what it held before the attempt, or shows an empty message, or shows
+exactly `d2` (same offset, skip set, capacity, flags); when nothing disturbs the attempt it returns normally and
+the tag shows `d2`; and whenever it returns normally the tag shows `d2`. -/
+theorem t12_retry_cut_safe (c : Cfg) (m : Bytes) (L : Layout) (hread : readNdef c m = .ok (some L)) (hwf : WF c m L)
+    (hw : L.writeable = true) (hs : List (Bytes × Option Fault)) (d2 : Bytes) (hcap2 : (d2.length : Int) ≤ L.cap)
+    (f : Option Fault) :
+    ((attemptR c L (historyR c L (freshR m) hs).1 d2 f).st.tag = (historyR c L (freshR m) hs).1.tag
+      ∨ readNdef c (attemptR c L (historyR c L (freshR m) hs).1 d2 f).st.tag = .ok (some { L with ndef := [] })
+      ∨ readNdef c (attemptR c L (historyR c L (freshR m) hs).1 d2 f).st.tag = .ok (some { L with ndef := d2 }))
+    ∧ ((attemptR c L (historyR c L (freshR m) hs).1 d2 f).res = .ok () →
+        readNdef c (attemptR c L (historyR c L (freshR m) hs).1 d2 f).st.tag = .ok (some { L with ndef := d2 }))
+    ∧ (f = none → (attemptR c L (historyR c L (freshR m) hs).1 d2 f).res = .ok ()) := by
   have hr := (readNdef_some c m L).1 hread
-  obtain ⟨hTl, hCl, hTb, hCb⟩ := failedWrite_state c m L d1 k T C hr hwf hcap1 hfail
-  obtain ⟨h1, h2, h3⟩ := retry_safe c m T C L d2 hr hwf hcap2 hTl hCl hTb hCb
-  refine ⟨h1, (readNdef_some c _ _).2 h2, fun j => ?_⟩
-  rcases h3 j with e | e | e
-  · exact Or.inl e
-  · exact Or.inr (Or.inl ((readNdef_some c _ _).2 e))
-  · exact Or.inr (Or.inr ((readNdef_some c _ _).2 e))
+  have hi := historyR_inv c m L hr hwf hs (freshR m) (InvR.fresh _ m _)
+  have hsp := writeFromR_spec c m L d2 _ f hr hwf hcap2 hi
+  have hat : attemptR c L (historyR c L (freshR m) hs).1 d2 f = writeFromR c L (historyR c L (freshR m) hs).1 d2 f := by
+    unfold attemptR; rw [if_neg (by simp [hw]), if_neg (by omega)]
+  rw [hat]
+  refine ⟨?_, fun h => (readNdef_some c _ _).2 (hsp.2.1 h).1, hsp.2.2⟩
+  rcases writeFromR_view c m L d2 _ f hr hwf hcap2 hi with h | h | h
+  · exact Or.inl h
+  · exact Or.inr (Or.inl ((readNdef_some c _ _).2 h))
+  · exact Or.inr (Or.inr ((readNdef_some c _ _).2 h))
 
-/-- a fresh object is the special case `T = C = m` -/
-example (c : Cfg) (m : Bytes) (L : Layout) (d : Bytes) : writeCmdsFrom c m m L d = writeCmds c m L d := rfl
+/-- **Cut safety over histories (full).**  For every well-formed image and EVERY history of assignments through one
+tag object - any number of attempts, any messages (oversize ones are refused without a command), each attempt
+completed or aborted at ANY state-changing command, the command not executed (lost / power cut) or executed but
+unacknowledged - a fresh reader of the tag sees the message found at activation, an empty message, or the COMPLETE
+message of one of the attempts that were not refused, with unchanged offset, skip set, capacity and flags.  Never a
+mixture. -/
+theorem t12_history_cut_safe (c : Cfg) (m : Bytes) (L : Layout) (hread : readNdef c m = .ok (some L)) (hwf : WF c m L)
+    (hs : List (Bytes × Option Fault)) :
+    ∃ x, (x = L.ndef ∨ x = [] ∨ x ∈ sentMsgs L hs) ∧
+      readNdef c (historyR c L (freshR m) hs).1.tag = .ok (some { L with ndef := x }) := by
+  have hr := (readNdef_some c m L).1 hread
+  rcases historyR_view c m L hr hwf hs (freshR m) (InvR.fresh _ m _) with h | ⟨x, hx, h⟩
+  · exact ⟨L.ndef, Or.inl rfl, by rw [h]; exact hread⟩
+  · exact ⟨x, Or.inr hx, (readNdef_some c _ _).2 h⟩
+
+/-- the same for the stricter reader of the present tree (`readBack`: a TLV that is not stored completely inside the
+data area is not accepted): it reports what `readNdef` reports, or no NDEF at all -/
+theorem t12_history_cut_safe_strict (c : Cfg) (m : Bytes) (L : Layout) (hread : readNdef c m = .ok (some L))
+    (hwf : WF c m L) (hs : List (Bytes × Option Fault)) :
+    readBack c (historyR c L (freshR m) hs).1.tag = .ok none ∨
+    ∃ x, (x = L.ndef ∨ x = [] ∨ x ∈ sentMsgs L hs) ∧
+      readBack c (historyR c L (freshR m) hs).1.tag = .ok (some { L with ndef := x }) := by
+  obtain ⟨x, hx, h⟩ := t12_history_cut_safe c m L hread hwf hs
+  unfold readBack
+  rw [h]
+  simp only
+  split <;> split <;> first | exact Or.inr ⟨x, hx, rfl⟩ | exact Or.inl rfl
+
+/-! ### the memory reader as found (before `fixes/C02/0002`) was not safe under unacknowledged commands
+
+Type 2 Tag of 64 byte, NDEF TLV at 18 (length byte = last byte of page 4, value from page 5), old message `AA BB`.
+Writing `01 02 03` sends three WRITE commands; the tag executes the last one (page 4 with the length byte 03) but
+the answer is lost.  The reader as found (`Hist.history`) still believes page 4 to hold length 00, so the empty
+message assigned next sends only page 5 (the terminator) and returns normally: the tag keeps length 03 over
+`FE 02 03` - a 3-byte message that is neither the old one, nor empty, nor a message of the history. -/
+def hM : Bytes := List.replicate 12 0 ++ [0xE1, 0x10, 6, 0] ++ [0, 0, 3, 2, 0xAA, 0xBB, 0xFE] ++ List.replicate 41 0
+def hL : Layout :=
+  { off := 18, skip := [], areaEnd := 64, cap := 44, readable := true, writeable := true, ndef := [0xAA, 0xBB] }
+def hHist : List (Bytes × Option Fault) := [([1, 2, 3], some ⟨2, true⟩), ([], none)]
+
+theorem t12_unacknowledged_mixture_asFound :
+    readNdef t2Cfg hM = .ok (some hL) ∧ WF t2Cfg hM hL ∧
+    (history t2Cfg hL (fresh hM) hHist).2 =
+      [([(16, [0, 0, 3, 0]), (20, [1, 2, 3, 0xFE]), (16, [0, 0, 3, 3])], .error faultErr),
+       ([(20, [0xFE, 2, 3, 0xFE])], .ok ())] ∧
+    readNdef t2Cfg (history t2Cfg hL (fresh hM) hHist).1.tag = .ok (some { hL with ndef := [0xFE, 2, 3] }) ∧
+    ¬ ([0xFE, 2, 3] = hL.ndef ∨ [0xFE, 2, 3] = [] ∨ [0xFE, 2, 3] ∈ sentMsgs hL hHist) ∧
+    -- the picture of page 4 differs from the tag although the reader has nothing marked
+    (history t2Cfg hL (fresh hM) [([1, 2, 3], some ⟨2, true⟩)]).1.tag
+      ≠ (history t2Cfg hL (fresh hM) [([1, 2, 3], some ⟨2, true⟩)]).1.belief := by
+  refine ⟨?_, ?_, ?_, ?_, ?_, ?_⟩ <;> decide +kernel
+
+/-- the same history on the repaired reader: page 4 is sent again (length 00), then the terminator; the tag shows
+the empty message, as `t12_history_cut_safe` promises -/
+example : (historyR t2Cfg hL (freshR hM) hHist).2 =
+      [([(16, [0, 0, 3, 0]), (20, [1, 2, 3, 0xFE]), (16, [0, 0, 3, 3])], .error faultErr),
+       ([(16, [0, 0, 3, 0]), (20, [0xFE, 2, 3, 0xFE])], .ok ())] ∧
+    readNdef t2Cfg (historyR t2Cfg hL (freshR hM) hHist).1.tag = .ok (some { hL with ndef := [] }) := by
+  constructor <;> decide +kernel
+
+/-- non-vacuity: three aborted attempts (a lost first command; an unacknowledged data page; the third attempt first
+flushes what the second left behind, its fourth command - the length page - is executed but unacknowledged: the
+tag then shows `09` and page 4 is unconfirmed), then `07 07` interrupted by a power cut after its first command,
+which is page 4 with length 00: empty -/
+example :
+    let hs : List (Bytes × Option Fault) :=
+      [([1, 2, 3], some ⟨0, false⟩), ([4, 5, 6, 7, 8], some ⟨1, true⟩), ([9], some ⟨3, true⟩)]
+    readNdef t2Cfg (historyR t2Cfg hL (freshR hM) hs).1.tag = .ok (some { hL with ndef := [9] }) ∧
+    (historyR t2Cfg hL (freshR hM) hs).1.dirty = [4] ∧
+    readNdef t2Cfg (historyR t2Cfg hL (freshR hM) (hs ++ [([7, 7], some ⟨1, false⟩)])).1.tag
+      = .ok (some { hL with ndef := [] }) := by
+  refine ⟨?_, ?_, ?_⟩ <;> decide +kernel
 
 /-! ## Non-vacuity and the two straddling alignments
 
@@ -132,24 +236,6 @@ example : readNdef t2Cfg (apply zM ((setOctets t2Cfg zM zL cxD).cmds.take
       ((setOctets t2Cfg zM zL cxD).cmds.length - 1))) = .ok (some { zL with ndef := [] })
     ∧ ((setOctets t2Cfg zM zL cxD).cmds.drop ((setOctets t2Cfg zM zL cxD).cmds.length - 2)).map Prod.fst = [16, 20] := by
   decide +kernel
-
-/-- non-vacuity of the retry theorem: command 30 of the 68 is lost, the tag then shows an empty
-message; the retry of the same message needs 38 commands (the 30 acknowledged ones are not repeated) -/
-example : ((failedWrite t2Cfg cxM cxL cxD 30).map fun p =>
-      (decide (readNdef t2Cfg p.1 = .ok (some { cxL with ndef := [] })),
-       (writeCmdsFrom t2Cfg p.1 p.2 cxL cxD).cmds.length)) = some (true, 38) := by
-  decide +kernel
-
-/-- with `_data_from_tag` updated BEFORE the command is sent, a lost command is believed stored:
-belief and tag differ (unit size 4, cache differs from the tag in unit 1, its command is lost) -/
-example :
-    let tag := [0, 0, 0, 0, 1, 1, 1, 1]
-    let cache := [0, 0, 0, 0, 9, 9, 9, 9]
-    -- correct order: nothing recorded
-    syncLost 4 cache [0, 1] 0 (tag, tag) = (tag, tag)
-    -- swapped order would record the unit although the tag never got it
-    ∧ writeAt tag 4 (sliceN cache 4 8) ≠ tag := by
-  decide
 
 /-! ## The code as found (before fixes/C02) was not cut safe (F2)
 
